@@ -9,7 +9,7 @@ import (
 // ---------------------------------------------------------------- failure kinds
 
 const (
-	KOk = iota
+	KOk     = iota
 	KDeepOk // succeeding call that needs DeepFrames nested frames (stack growth on the success path)
 	KUnreachable
 	KDivZero
@@ -47,6 +47,126 @@ const (
 	KCloseB7  // succeeding in A: a host function closes the OTHER instance (B) with exit code 7
 	NKinds
 )
+
+// Sequence kinds (only for the x* shapes, module X): one function body without control flow that first
+// calls a function imported from another wasm instance and then ends in an exit / close / panic / trap.
+const (
+	seqAHostNop  = iota // A.hostnop(k): A makes a host call
+	seqAIndirect        // A.indirect(ok,k): A executes call_indirect
+	seqAGrow            // A.grow0(k): A executes memory.grow
+	seqBIndirect
+	seqBGrow
+	seqBDirect // B.direct(ok,k): no host call, call_indirect or grow in B (control)
+	nSeqFirsts
+)
+
+var seqFirstNames = [nSeqFirsts]string{"Ahostnop", "Aindirect", "Agrow", "Bindirect", "Bgrow", "Bdirect"}
+var seqThens = []int{KProcExit0, KProcExit3, KClose0, KClose7, KPanicError, KUnreachable}
+
+const (
+	KSeq0     = NKinds
+	nSeq      = nSeqFirsts * 6
+	NAllKinds = NKinds + nSeq
+)
+
+func isSeq(k int) bool { return k >= KSeq0 && k < KSeq0+nSeq }
+func seqParts(k int) (first, then int) {
+	return (k - KSeq0) / len(seqThens), seqThens[(k-KSeq0)%len(seqThens)]
+}
+
+func kindNames0(k int) string {
+	switch k {
+	case KProcExit0:
+		return "procexit0"
+	case KProcExit3:
+		return "procexit3"
+	case KClose0:
+		return "close0"
+	case KClose7:
+		return "close7"
+	case KPanicError:
+		return "panic-error"
+	case KUnreachable:
+		return "unreachable"
+	}
+	panic("kindNames0")
+}
+
+// memory shapes of module X
+const (
+	xOwn      = iota // own unshared memory
+	xNone            // no memory
+	xShared          // own shared memory
+	xImported        // unshared memory imported from instance "q"
+	nXMem
+)
+
+// buildQ emits the instance that only exports an unshared memory.
+func buildQ() []byte {
+	m := &wb.Module{Mem: &wb.Limits{Min: 1, Max: 1, HasMax: true}}
+	m.Exports = append(m.Exports, wb.Export{Name: "memory", Kind: wb.KindMemory, Idx: 0})
+	return m.Encode()
+}
+
+// buildX emits module X for one memory shape: one exported function per sequence kind,
+// seq_i(k) -> g : g += 1 ; [store k if it has a memory] ; first(k) ; then ; g += 100.
+func buildX(memShape int) []byte {
+	m := &wb.Module{}
+	i32 := wb.I32
+	hp := m.ImportFunc(hostModName, "panic", []byte{i32}, nil)
+	hc := m.ImportFunc(hostModName, "close", []byte{i32}, nil)
+	pe := m.ImportFunc(wasiModName, "proc_exit", []byte{i32}, nil)
+	var firsts [nSeqFirsts]uint32
+	firsts[seqAHostNop] = m.ImportFunc("A", "hostnop", []byte{i32}, []byte{i32})
+	firsts[seqAIndirect] = m.ImportFunc("A", "indirect", []byte{i32, i32}, []byte{i32})
+	firsts[seqAGrow] = m.ImportFunc("A", "grow0", []byte{i32}, []byte{i32})
+	firsts[seqBIndirect] = m.ImportFunc("B", "indirect", []byte{i32, i32}, []byte{i32})
+	firsts[seqBGrow] = m.ImportFunc("B", "grow0", []byte{i32}, []byte{i32})
+	firsts[seqBDirect] = m.ImportFunc("B", "direct", []byte{i32, i32}, []byte{i32})
+	switch memShape {
+	case xOwn:
+		m.Mem = &wb.Limits{Min: 1, Max: 1, HasMax: true}
+	case xShared:
+		m.Mem = &wb.Limits{Min: 1, Max: 1, HasMax: true, Shared: true}
+	case xImported:
+		m.Imports = append(m.Imports, wb.Import{Module: "q", Name: "memory", Kind: wb.KindMemory, Mem: wb.Limits{Min: 1, Max: 1, HasMax: true}})
+	}
+	g := m.AddGlobal(i32, true, wb.CI32(0))
+	m.Exports = append(m.Exports, wb.Export{Name: "g", Kind: wb.KindGlobal, Idx: g})
+	m.FuncNames = map[uint32]string{}
+	for i := 0; i < nSeq; i++ {
+		first, then := seqParts(KSeq0 + i)
+		a := (&wb.Asm{}).GlobalGet(g).I32Const(1).Op(0x6a).GlobalSet(g)
+		if memShape != xNone {
+			a.I32Const(0).LocalGet(0).Mem(0x36, 2, 0)
+		}
+		switch first {
+		case seqAIndirect, seqBIndirect, seqBDirect:
+			a.I32Const(KOk).LocalGet(0).Call(firsts[first]).Drop()
+		default:
+			a.LocalGet(0).Call(firsts[first]).Drop()
+		}
+		switch then {
+		case KProcExit0:
+			a.I32Const(0).Call(pe)
+		case KProcExit3:
+			a.I32Const(3).Call(pe)
+		case KClose0:
+			a.I32Const(0).Call(hc)
+		case KClose7:
+			a.I32Const(7).Call(hc)
+		case KPanicError:
+			a.I32Const(KPanicError).Call(hp)
+		case KUnreachable:
+			a.Unreachable()
+		}
+		a.GlobalGet(g).I32Const(100).Op(0x6a).GlobalSet(g).GlobalGet(g)
+		idx := m.AddFunc([]byte{i32}, []byte{i32}, nil, a.B)
+		m.ExportFunc(fmt.Sprintf("seq%d", i), idx)
+		m.FuncNames[idx] = "seq_" + kindNames[KSeq0+i]
+	}
+	return m.Encode()
+}
 
 // aoobTable: every family of atomic instruction that takes the memory's lock / waiter list in the
 // interpreter (or a Go call in the compiler), at address 65536 (aligned for every width, out of bounds).
@@ -93,7 +213,7 @@ func isAOOB(k int) bool { return k >= KAOOB0 && k < KAOOB0+nAOOB }
 
 const NBKinds = KRec1024 + 1 // kinds available in the plain instance B
 
-var kindNames = func() (n [NKinds]string) {
+var kindNames = func() (n [NAllKinds]string) {
 	for i, s := range []string{"ok", "deepok", "unreachable", "div0", "overflow", "invalidconv", "oobstore", "oobfill", "tableoob", "cinull",
 		"cimismatch", "cioob", "unaligned", "okatomic"} {
 		n[i] = s
@@ -104,6 +224,9 @@ var kindNames = func() (n [NKinds]string) {
 	for i, s := range []string{"rec0", "rec1", "rec64", "rec1024", "panic-error", "panic-string", "panic-runtime", "panic-customerr",
 		"panic-value", "procexit0", "procexit3", "close0", "close7", "deephost", "closeb7"} {
 		n[KRec0+i] = s
+	}
+	for i := 0; i < nSeq; i++ {
+		n[KSeq0+i] = seqFirstNames[i/len(seqThens)] + "+" + kindNames0(seqThens[i%len(seqThens)])
 	}
 	for i, s := range n {
 		if s == "" {
@@ -146,6 +269,7 @@ const (
 	impBDirect
 	impGC
 	impCloseB
+	impNop
 	nImportsA
 )
 
@@ -177,6 +301,7 @@ func buildGuest(isA bool) []byte {
 		m.ImportFunc("B", "direct", []byte{i32, i32}, []byte{i32})
 		m.ImportFunc(hostModName, "gc", nil, []byte{i32})
 		m.ImportFunc(hostModName, "closeb", []byte{i32}, nil)
+		m.ImportFunc(hostModName, "nop", []byte{i32}, []byte{i32})
 	}
 	m.Mem = &wb.Limits{Min: 1, Max: 1, HasMax: true, Shared: true} // shared: memory.atomic.wait needs it
 	g := m.AddGlobal(i32, true, wb.CI32(0))
@@ -255,7 +380,7 @@ func buildGuest(isA bool) []byte {
 		case KOOBStore:
 			a.I32Const(PageSize-4).I64Const(-1).Mem(0x37, 3, 0) // i64.store
 		case KOOBFill:
-			a.I32Const(PageSize-6).I32Const(0xAB).I32Const(10).MemoryFill()
+			a.I32Const(PageSize - 6).I32Const(0xAB).I32Const(10).MemoryFill()
 		case KTableOOB:
 			a.I32Const(1000).TableGet(0).Drop()
 		case KCINull:
@@ -337,7 +462,29 @@ func buildGuest(isA bool) []byte {
 		m.ExportFunc("indirect", idx)
 		m.FuncNames[idx] = "indirect"
 	}
+	// grow0(k) -> g : own effects around memory.grow(0)
+	{
+		a := &wb.Asm{}
+		pre(a, g, 0)
+		a.I32Const(0).MemoryGrow().Drop()
+		post(a, g, 0)
+		a.GlobalGet(g)
+		idx := m.AddFunc([]byte{i32}, []byte{i32}, nil, a.B)
+		m.ExportFunc("grow0", idx)
+		m.FuncNames[idx] = "grow0"
+	}
 	if isA {
+		// hostnop(k) -> g : own effects around a host call that does nothing
+		{
+			a := &wb.Asm{}
+			pre(a, g, 0)
+			a.LocalGet(0).Call(impNop).Drop()
+			post(a, g, 0)
+			a.GlobalGet(g)
+			idx := m.AddFunc([]byte{i32}, []byte{i32}, nil, a.B)
+			m.ExportFunc("hostnop", idx)
+			m.FuncNames[idx] = "hostnop"
+		}
 		// viab(kind,k) -> g : own effects around a call of the function imported from B
 		{
 			a := &wb.Asm{}
